@@ -160,7 +160,20 @@ def call_graph():
             for t in by_name.get('__init__', []):
                 if t.split('.')[-2] == name:
                     tg.add(t)
-        # generator expressions / comprehensions inside belong to the function itself
+        # function references that are not called here (passed around, stored in lists): potential calls
+        for n in ast.walk(node):
+            if isinstance(n, ast.Name) and isinstance(n.ctx, ast.Load):
+                for t in by_name.get(n.id, []):
+                    tg.add(t)
+        # a decorated function runs its decorator's wrappers: edges to the decorator and everything nested in it
+        for d in node.decorator_list:
+            dn = d.func if isinstance(d, ast.Call) else d
+            name = dn.id if isinstance(dn, ast.Name) else (dn.attr if isinstance(dn, ast.Attribute) else None)
+            for t in by_name.get(name, []):
+                tg.add(t)
+                for q2 in fns:
+                    if q2.startswith(t + '.<locals>'):
+                        tg.add(q2)
         g[q] = tg
     return g
 
